@@ -676,7 +676,7 @@ func c01StageComposites(w *World, r *Report, pa *pipelineAnchors, forC01 bool) {
 	} else {
 		errArg := w.Obj("internal/heimdall", "ErrArgument")
 		for _, k := range elems {
-			cut := factCut(func(f Fact) bool {
+			permitted := func(f Fact) bool {
 				if f.Kind != FTrue {
 					return false
 				}
@@ -700,7 +700,7 @@ func c01StageComposites(w *World, r *Report, pa *pipelineAnchors, forC01 bool) {
 					return true
 				}
 				return false
-			})
+			}
 			ok, msg := true, ""
 			n := 0
 			for _, b := range sc.Blocks {
@@ -715,7 +715,7 @@ func c01StageComposites(w *World, r *Report, pa *pipelineAnchors, forC01 bool) {
 						continue
 					}
 					n++
-					seen := reachFromEdge(b, i, cut)
+					seen := reachFromEdgeP(b, i, permitted)
 					for _, k2 := range elems {
 						if seen[k2.Block()] {
 							ok, msg = false, "after an authenticator failed, another one can run without errors.Is(err, ErrArgument) or IsFallbackOnErrorAllowed() of the failed one being true"
